@@ -1,12 +1,91 @@
 import HcipyVerif.Model.Proto
+import HcipyVerif.Model.Fraunhofer
 
-/-! Line-protocol front end of the C03 model (stub: not built yet). -/
+/-! Line-protocol front end of the C03 model (Fraunhofer bookkeeping).
+
+```
+C03 setup lam f [dxp,dyp] [Nx,Ny] [zx,zy]      -> ok lamf=… norm=re:im uvscale=… wp=…
+C03 focal [dx,dy] [Mx,My] [zx,zy]              -> ok uvdelta=[…] uvzero=[…] wfac=… class=… M=[…] gain=…
+C03 focal cur                                  -> same, for the grid made by the last mkfocal/ffpg
+C03 mkfocal [qx,qy] [ax,ay] [srx,sry]           -> ok delta=[…] dims=[…] zero=[…] slack=[…]   (make_focal_grid)
+C03 ffpg q numairy|- lf                        -> ok delta=[…] dims=[…] zero=[…] slack=[…]   (make_focal_grid_from_pupil_grid)
+C03 impulse-idx [jx,jy] [kx,ky]                -> ok amp=… turns=…   (pupil index, focal index of the last `focal`)
+C03 impulse-at [jx,jy] [x,y]                   -> ok amp=… turns=…   (pupil index, arbitrary focal point)
+```
+-/
 namespace HcipyVerif.Driver.C03
+open HcipyVerif.Proto HcipyVerif.Fraunhofer
 
 structure St where
-  dummy : Unit := ()
+  setup : Option Setup := none
+  focal : Option RegGrid := none
+
+def okLen (n : Nat) (a : List Rat) (b : List Nat) (c : List Rat) : Bool :=
+  a.length == n && b.length == n && c.length == n && n > 0
+
+def showImpulse (r : Rat × Rat) : String := s!"ok amp={showRat r.1} turns={showRat r.2}"
+
+def focalInfo (s : Setup) (g : RegGrid) : String :=
+  let uv := uvGridTurns s g
+  let (cls, Ms) := classify s g
+  let gain := if cls == .full then showRat (powerGain s g Ms) else "-"
+  s!"ok uvdelta={showRatList uv.delta} uvzero={showRatList uv.zero} wfac={showRat (uvWeightFactor s g.ndim)} class={cls.show} M={showNatList Ms} gain={gain}"
+
+def showGrid (g : RegGrid) (slack : List Rat) : String :=
+  s!"ok delta={showRatList g.delta} dims={showNatList g.dims} zero={showRatList g.zero} slack={showRatList slack}"
 
 def step (st : St) : List String → St × String
+  | ["reset"] => ({}, "ok")
+  | ["setup", lam, f, d, n, z] =>
+    match parseRat? lam, parseRat? f, parseRatList? d, parseNatList? n, parseRatList? z with
+    | some lam, some f, some d, some n, some z =>
+      if lam * f = 0 || !okLen d.length d n z then (st, "err value") else
+      let s : Setup := { lam := lam, f := f, pupil := { delta := d, dims := n, zero := z } }
+      let nf := normFactor s
+      ({ setup := some s, focal := none },
+        s!"ok lamf={showRat (lamf s)} norm={showRat nf.1}:{showRat nf.2} uvscale={showRat (uvScaleTurns s)} wp={showRat s.pupil.weight}")
+    | _, _, _, _, _ => (st, "bad-op")
+  | ["focal", "cur"] =>
+    match st.setup, st.focal with
+    | some s, some g => (st, focalInfo s g)
+    | _, _ => (st, "err value")
+  | ["focal", d, n, z] =>
+    match st.setup, parseRatList? d, parseNatList? n, parseRatList? z with
+    | some s, some d, some n, some z =>
+      if !okLen d.length d n z then (st, "err value") else
+      let g : RegGrid := { delta := d, dims := n, zero := z }
+      ({ st with focal := some g }, focalInfo s g)
+    | none, _, _, _ => (st, "err value")
+    | _, _, _, _ => (st, "bad-op")
+  | ["mkfocal", q, a, r] =>
+    match parseRatList? q, parseRatList? a, parseRatList? r with
+    | some q, some a, some r =>
+      if q.length ≠ a.length || q.length ≠ r.length || q.any (· ≤ 0) then (st, "err value") else
+      let (g, slack) := makeFocalGrid q a r
+      ({ st with focal := some g }, showGrid g slack)
+    | _, _, _ => (st, "bad-op")
+  | ["ffpg", q, a, lf] =>
+    match st.setup, parseRat? q, (if a == "-" then some none else (parseRat? a).map some), parseRat? lf with
+    | some s, some q, some a, some lf =>
+      if q < 1 then (st, "err value") else
+      let (g, slack) := focalFromPupil s.pupil q a lf
+      ({ st with focal := some g }, showGrid g slack)
+    | none, some _, some _, some _ => (st, "err value")
+    | _, _, _, _ => (st, "bad-op")
+  | ["impulse-idx", j, k] =>
+    match st.setup, st.focal, parseNatList? j, parseNatList? k with
+    | some s, some g, some j, some k =>
+      if j.length ≠ s.pupil.ndim || k.length ≠ g.ndim then (st, "err value") else
+      (st, showImpulse (impulseResponse s s.pupil.weight (g.point k) (s.pupil.point j)))
+    | _, _, some _, some _ => (st, "err value")
+    | _, _, _, _ => (st, "bad-op")
+  | ["impulse-at", j, x] =>
+    match st.setup, parseNatList? j, parseRatList? x with
+    | some s, some j, some x =>
+      if j.length ≠ s.pupil.ndim || x.length ≠ s.pupil.ndim then (st, "err value") else
+      (st, showImpulse (impulseResponse s s.pupil.weight x (s.pupil.point j)))
+    | none, some _, some _ => (st, "err value")
+    | _, _, _ => (st, "bad-op")
   | _ => (st, "bad-op")
 
 end HcipyVerif.Driver.C03
